@@ -1,10 +1,10 @@
 (* C01, wave 7: the string-level reader of DFXP documents (model/XmlRead.v) on every rendering of every abstract
-   document (spec/SpecXmlDoc.v): the text parses to the intended tree, the reader's queries on the tree give the
+   document (spec/SpecXmlDocT.v): the text parses to the intended tree, the reader's queries on the tree give the
    <div>s and <p>s of the abstract document, hence (TimeTreeFacts.dfxp_doc_exact) the caption set it denotes. *)
 From Coq Require Import List ZArith Lia Bool ZifyBool Arith.
 From PV Require Import lib.Sx lib.Str lib.Result lib.Dec.
 From PV Require Import model.Langs model.TimeRead model.TimeTree model.XmlRead.
-From PV Require Import spec.SpecTime spec.SpecTimeTree spec.SpecXmlDoc.
+From PV Require Import spec.SpecTime spec.SpecTimeTree spec.SpecXmlDocT.
 From PV Require Import proofs.TimeStrFacts proofs.TimeTreeFacts.
 Import ListNotations.
 Open Scope Z_scope.
